@@ -168,11 +168,12 @@ struct Stats {
     groups: Mutex<BTreeMap<String, [u64; 5]>>,
     /// reference rule → [rejected by the implementation too, accepted by the implementation]
     rules: Mutex<BTreeMap<String, [u64; 2]>>,
-    /// accepted-invalid (rule, clause) → cases
-    gaps: Mutex<BTreeMap<String, u64>>,
+    /// accepted-invalid (rule, clause) → (cases, shortest witness)
+    gaps: Mutex<BTreeMap<String, (u64, String)>>,
     agree_valid: AtomicU64,
     agree_invalid: AtomicU64,
     docs: AtomicU64,
+    skipped_custom_scalar_literal: AtomicU64,
 }
 
 struct CaseIn<'a> {
@@ -219,12 +220,33 @@ fn impl_rule_of(message: &str, stage: Stage) -> &'static str {
     T.iter().find(|(k, _)| message.contains(k)).map(|(_, r)| *r).unwrap_or("unknown")
 }
 
+/// A literal written for the custom scalar `Upload` (as a variable default or as an argument of the
+/// two Upload-taking fields). What literals a custom scalar accepts is the scalar's own input coercion
+/// (§3.5), which the reference does not model — such documents are not judged.
+fn custom_scalar_literal(doc: &ExecDoc) -> bool {
+    use agv_refgql::ast::{ExecDef, Selection, Value};
+    fn lit(v: &Value) -> bool {
+        !matches!(v, Value::Var(_) | Value::Null)
+    }
+    fn sel(s: &[Selection]) -> bool {
+        s.iter().any(|x| match x {
+            Selection::Field(f) => (["up", "upq"].contains(&f.name.s.as_str()) && f.args.iter().any(|(k, v)| k.s == "f" && lit(&v.v))) || sel(&f.sel),
+            Selection::Inline(i) => sel(&i.sel),
+            Selection::Spread(_) => false,
+        })
+    }
+    doc.defs.iter().any(|d| match d {
+        ExecDef::Op(o) => o.vars.iter().any(|v| v.ty.base() == "Upload" && v.default.as_ref().map(|d| lit(&d.v)).unwrap_or(false)) || sel(&o.sel),
+        ExecDef::Frag(f) => sel(&f.sel),
+    })
+}
+
 fn upload_outside_mutation(doc: &ExecDoc) -> bool {
     doc.ops().any(|o| o.kind != OpKind::Mutation && o.vars.iter().any(|v| v.ty.base() == "Upload"))
 }
 
 #[allow(clippy::too_many_arguments)]
-fn judge(cx: &Cx, st: &Stats, case: &CaseIn, flavour: &str, vars_policy: &str, vars: &Map<String, J>, op_name: Option<&str>, stream: bool, refs: &[(VError, String)], o: &Observed) {
+fn judge(cx: &Cx, st: &Stats, case: &CaseIn, flavour: &str, vars_policy: &str, vars: &Map<String, J>, op_name: Option<&str>, stream: bool, refs: &[(VError, String)], ref_exec_clean: bool, o: &Observed) {
     let case_json = || json!({"schema": case.schema, "flavour": flavour, "query": case.text, "variables": J::Object(vars.clone()), "operation_name": op_name, "stream": stream});
     let ref_rules: BTreeSet<(String, String)> = refs.iter().map(|(e, c)| (e.rule.to_string(), c.clone())).collect();
     let ref_invalid = !refs.is_empty();
@@ -272,7 +294,9 @@ fn judge(cx: &Cx, st: &Stats, case: &CaseIn, flavour: &str, vars_policy: &str, v
         (false, false) => {
             slot = 0;
             st.agree_valid.fetch_add(1, Ordering::Relaxed);
-            if !o.errors.is_empty() || o.more_errors > 0 {
+            // the reference executor (same variables, all-default world) says whether execution itself
+            // may raise an error (e.g. §6.4.1: a null variable value at a non-null argument)
+            if ref_exec_clean && (!o.errors.is_empty() || o.more_errors > 0) {
                 cx.violation(
                     Violation::new(
                         "valid-accepted-then-fails",
@@ -295,7 +319,14 @@ fn judge(cx: &Cx, st: &Stats, case: &CaseIn, flavour: &str, vars_policy: &str, v
             }
             let later = if o.errors.is_empty() { format!("executed without errors (resolvers run: {})", o.resolvers.len()) } else { format!("failed later, during execution: {:?}", o.errors.iter().map(|e| &e.message).collect::<Vec<_>>()) };
             for rc in &ref_rules {
-                *st.gaps.lock().unwrap().entry(format!("{}[{}]", rc.0, rc.1)).or_default() += 1;
+                {
+                    let mut g = st.gaps.lock().unwrap();
+                    let e = g.entry(format!("{}[{}] vars={vars_policy}", rc.0, rc.1)).or_insert((0, String::new()));
+                    e.0 += 1;
+                    if e.1.is_empty() || (case.text.len(), &case.text) < (e.1.len(), &e.1) {
+                        e.1 = case.text.clone();
+                    }
+                }
                 let msg = refs.iter().find(|(e, c)| e.rule == rc.0 && *c == rc.1).map(|(e, _)| e.msg.clone()).unwrap_or_default();
                 cx.violation(
                     Violation::new(
@@ -304,7 +335,8 @@ fn judge(cx: &Cx, st: &Stats, case: &CaseIn, flavour: &str, vars_policy: &str, v
                         case_json(),
                     )
                     .key("rule", rc.0.clone())
-                    .key("clause", rc.1.clone())
+                    .key("clause", rc.1.rsplit_once('@').map(|(c, _)| c).unwrap_or(&rc.1).to_string())
+                    .key("context", rc.1.rsplit_once('@').map(|(_, x)| x).unwrap_or("plain").to_string())
                     .key("operator", blame(rc))
                     .key("flavour", flavour)
                     .key("vars", vars_policy),
@@ -341,6 +373,10 @@ fn judge(cx: &Cx, st: &Stats, case: &CaseIn, flavour: &str, vars_policy: &str, v
 /// Evaluate one document on both flavours of its schema; returns (reference verdict invalid?, rule set).
 fn evaluate(cx: &Cx, w: &World, st: &Stats, case: &CaseIn) -> BTreeSet<(String, String)> {
     let (ir, stat, dynm): (&Schema, &dyn Runner, &dyn Runner) = if case.schema == "S1" { (&w.ir1, &w.s1, &w.d1) } else { (&w.ir3, &w.s3, &w.d3) };
+    if custom_scalar_literal(&case.doc) {
+        st.skipped_custom_scalar_literal.fetch_add(1, Ordering::Relaxed);
+        return validate_clauses(ir, &case.doc).into_iter().map(|(e, c)| (e.rule.to_string(), c)).collect();
+    }
     let refs = validate_clauses(ir, &case.doc);
     st.docs.fetch_add(1, Ordering::Relaxed);
     let op = case.doc.ops().next();
@@ -358,9 +394,14 @@ fn evaluate(cx: &Cx, w: &World, st: &Stats, case: &CaseIn) -> BTreeSet<(String, 
             }
             let vars = supply(ir, op, omit);
             let policy = if omit { "defaulted-omitted" } else { "all-supplied" };
+            let ref_exec_clean = refs.is_empty() && {
+                let tw = agv_refgql::exec::TableWorld::default();
+                let r = agv_refgql::exec::execute(ir, &case.doc, op_name.as_deref(), &vars, &mut agv_refgql::exec::TableWorldRef { s: ir, w: &tw });
+                r.request_error.is_none() && r.errors.is_empty()
+            };
             cx.eval();
             match observe(runner, &case.text, op_name.as_deref(), &vars, stream) {
-                Ok(o) => judge(cx, st, case, flavour, policy, &vars, op_name.as_deref(), stream, &refs, &o),
+                Ok(o) => judge(cx, st, case, flavour, policy, &vars, op_name.as_deref(), stream, &refs, ref_exec_clean, &o),
                 Err(e) if e.starts_with("panic: ") => cx.violation(
                     Violation::new("panic", format!("{e}\n query: {}", case.text), json!({"schema": case.schema, "flavour": flavour, "query": case.text, "variables": J::Object(vars.clone()), "operation_name": op_name, "stream": stream}))
                         .key("flavour", flavour)
@@ -382,7 +423,7 @@ fn evaluate(cx: &Cx, w: &World, st: &Stats, case: &CaseIn) -> BTreeSet<(String, 
 // space (i)
 
 fn small_scope(cx: &Cx, w: &World, st: &Stats) {
-    let (nodes, deco, alias) = if cx.quick() { (3, 1, 2) } else { (4, 2, 2) };
+    let (nodes, deco, alias) = if cx.quick() { (3, 1, 2) } else { (4, 1, 2) };
     let mut total = 0u64;
     for kind in [OpKind::Query, OpKind::Mutation, OpKind::Subscription] {
         let cfg = small::SmallCfg { max_nodes: nodes, max_depth: 3, kind, named_fragments: 1 };
@@ -535,14 +576,17 @@ fn run(cx: &Cx) {
         J::Object(groups.iter().map(|(k, v)| (k.clone(), json!({"valid_agreed": v[0], "invalid_agreed": v[1], "accepts_invalid": v[2], "rejects_valid": v[3], "documented_extra": v[4]}))).collect()),
     );
     cx.extra("by_reference_rule", J::Object(st.rules.lock().unwrap().iter().map(|(k, v)| (k.clone(), json!({"rejected_by_both": v[0], "accepted_by_implementation": v[1]}))).collect()));
-    cx.extra("accepted_invalid_by_rule_clause", J::Object(st.gaps.lock().unwrap().iter().map(|(k, v)| (k.clone(), json!(v))).collect()));
+    cx.extra("accepted_invalid_by_rule_clause", J::Object(st.gaps.lock().unwrap().iter().map(|(k, v)| (k.clone(), json!({"cases": v.0, "smallest": v.1}))).collect()));
     cx.extra("documents", json!(st.docs.load(Ordering::Relaxed)));
+    cx.extra("not_judged_custom_scalar_literal", json!(st.skipped_custom_scalar_literal.load(Ordering::Relaxed)));
     cx.extra("evaluations_agreed_valid", json!(av));
     cx.extra("evaluations_agreed_invalid", json!(ai));
     cx.rule("case = (document, supplied variables, schema flavour). (i) every document with ≤ N selection nodes over S1's alphabet {valid fields per type, unknown field zz, __typename, inline fragments on none/A/B/I/U/Query/E(non-composite)/Zz(unknown), spreads of F0 (defined with every condition) and Fx (never defined), leaf-with-selection, composite-without-selection}, query/mutation/subscription, ≤ k directive decorations from {@include(if:true), @nope, @deprecated, @skip, @skip(if:1), repeated @include; on the operation @skip/@nope; on the fragment definition @include/@nope} and ≤ 2 aliases; (ii) 14 valid exemplars over S3 × every operator instance at every applicable site (thorough: every pair of the ~50 core operators). Variables: a value of the declared type for every declared variable (second run with the defaulted ones omitted). Non-trivial = distinct documents on which the reference validator reports ≥ 1 error.");
     cx.assume("the reference validator agv-refgql (October 2021 §5 + the OneOf input object rule; bound to the spec by unit tests of the spec's examples) is the oracle; error messages and error order are never compared");
     cx.assume("stage verdicts are observed through the public Extension API (parse_query / validation hooks); resolver invocations through the harness schemas' log");
     cx.assume("documented restriction allowed: Upload variables outside mutations may be rejected; introspection entry points, complexity/depth limits are not exercised");
+    cx.assume("documents that write a literal for the custom scalar Upload are not judged (a custom scalar defines its own literal coercion)");
+    cx.assume("'what both accept executes without errors' is demanded only where the reference executor (same variables, all-default world) raises no error itself");
     cx.assume("the dynamic twins have no executable custom directives; documents using @cd/@rp run on the derive-built flavour only");
 }
 
